@@ -218,7 +218,7 @@ func instructionSplit(b []byte) (string, []byte, error) {
 		return "", nil, fmt.Errorf("zero-length argument")
 	}
 	bSz := len(b)
-	if bSz < int(sz) {
+	if bSz <= int(sz) {
 		return "", nil, fmt.Errorf("corrupt instruction, len %v less than symbol length: %v", bSz, sz)
 	}
 	r := string(b[1 : 1+sz])
